@@ -40,6 +40,7 @@ def check(ctx):
                       "everything __enter__ acquired", 4)
     ctx.rule("R15.3", "files are only ever created exclusively ('x'); 'r+' only on the file this run created; retry on name clash increments the serial", 3)
     ctx.rule("R15.4", "cancellation: the interrupt handler either resumes or cancels; a cancelled recorded stage still yields a Solution", 4)
+    ctx.rule("R15.12", "per-step records are appended once per update, after the step is complete (shared with C05 R05.3)", 1)
     ctx.rule("R15.11", "an error raised inside a step stops the run as that error (shared predicate with C12 R12.8)", 1)
     ctx.rule("R15.5", "a frame group is either complete or absent: failures while filling a created group remove it", 1)
     create_output(ctx)
@@ -291,11 +292,17 @@ def cancellation(ctx):
            detail=errs[:4], where=f.fq, construct="propagation of an error raised in a step", loc=loc(f, f.node),
            message=f"an error raised inside a step is swallowed by the loop: {errs[:2]}",
            consequence="a run that failed is reported as completed: frames after the failure are written from a state that was never computed")
+    from ..report import Shared
+    from . import c05
+    c05.records(Shared(ctx, {"R05.3": "R15.12"},
+                       consequence="a record (dt, probe values) is written into the runner's buffer before the step is complete: an interrupt between the psi "
+                                   "step and the end of update() leaves a record of a step that was never taken - the final frame of the cancelled run "
+                                   "holds more time steps than were completed"), f)
     fs = repo.func(SOLVER, "TDGLSolver.solve")
     # solve() followed to its end (pvs/tables.py; private helpers of the solver included) for run() -> True / False
     from ..tables import solve_outcomes
     bad4 = []
-    for ran, events, (kind, val) in solve_outcomes(repo):
+    for ran, events, (kind, val), *_ in solve_outcomes(repo):
         if kind != "return":
             bad4.append(f"run() -> {ran}: solve() raises {val}")
         elif ran and (events != ["WITH-ENTER", "RUN", "SOLUTION", "SAVE", "WITH-EXIT"] or render_(val) != "SOLUTION"):
